@@ -9,7 +9,9 @@ Objects (`lean/FlVerif/Op/PyExtEngineIO.lean`, models in `lean/FlVerif/Op/Engine
   like Python, negative from the end, `IndexError`);
 * `__getitem__` builds the list of the three *generated* look-ups (bound methods are functions `Key → Py.M Comp`);
 * a variable, as far as the value getters look at it, is the pair of the variable and the value it holds
-  (`Op.Engine.VarValue`: a float / 0-d array or a 1-D array); the NumPy calls `np.column_stack`, `np.array`,
+  (`Op.Engine.VarValue`: a float / 0-d array or a 1-D array); `Engine.output_values` (repaired, F17) puts the input
+  variables and the output variables into ONE list: its elements are variables of either kind (`Py.EIO.Variable`, the
+  base class; `Py.EIO.inVariable` / `outVariable` view a variable of a subclass as one); the NumPy calls `np.column_stack`, `np.array`,
   `np.broadcast_arrays`, `np.atleast_1d`, `np.hstack` are the operations of `Py.EIO` on these values and on `NdArr`;
 * `copy.deepcopy(self)` yields an equal value (`Py.EIO.deepcopy`: the translated values are immutable, so an equal
   value is an independent copy; independence of the Python objects is observed by the correspondence run of C13);
@@ -19,6 +21,7 @@ IV = "Op.Engine.InVar Rat"
 OV = "Op.Engine.OutVar Rat"
 BL = "String × Op.Engine.Block Rat"
 VAL = "Op.Engine.VarValue Rat"
+VAR = "Py.EIO.Variable"
 ND = "Op.Engine.NdArr Rat"
 KEY = "Op.Engine.Key"
 COMP = "Op.Engine.Comp Rat"
@@ -92,10 +95,13 @@ PROFILES = [
     },
     {
         "name": "Engine_output_values", "module": "fuzzylite.engine", "object": "Engine.output_values.fget", "file": "CodeEngineIO",
-        "params": [("outs", f"List ({OV} × {VAL})")], "locals": {"values": f"List ({VAL})", "result": ND}, "ret": ND,
+        # the list `variables` holds input variables followed by output variables: objects of the base class `Variable`
+        "params": [("ins", f"List ({IV} × {VAL})"), ("outs", f"List ({OV} × {VAL})")],
+        "locals": {"variables": f"List ({VAR} × {VAL})", "values": f"List ({VAL})", "result": ND}, "ret": ND,
         "externals": [
-            ("self.output_variables", "outs", f"List ({OV} × {VAL})", True),
-            ("_0.value", "{0}.2", VAL, True, [f"{OV} × {VAL}"]),
+            ("self.input_variables", "(ins.map Py.EIO.inVariable)", f"List ({VAR} × {VAL})", True),
+            ("self.output_variables", "(outs.map Py.EIO.outVariable)", f"List ({VAR} × {VAL})", True),
+            ("_0.value", "{0}.2", VAL, True, [f"{VAR} × {VAL}"]),
             ("np.atleast_1d(_0)", "(Py.EIO.atleast1d {0})", VAL, True, [VAL]),
             ("np.broadcast_arrays(*_0)", "(Py.EIO.broadcastArrays {0})", f"List ({VAL})", False, [f"List ({VAL})"]),
             ("np.column_stack(_0)", "(Py.EIO.columnStack {0})", ND, False, [f"List ({VAL})"]),
@@ -108,7 +114,7 @@ PROFILES = [
         "externals": [
             # the two properties translated above
             ("self.input_values", "(Engine_input_values.run ins {{}} >>= fun s => Py.deref s.ret)", ND, False),
-            ("self.output_values", "(Engine_output_values.run outs {{}} >>= fun s => Py.deref s.ret)", ND, False),
+            ("self.output_values", "(Engine_output_values.run ins outs {{}} >>= fun s => Py.deref s.ret)", ND, False),
             ("np.hstack((_0, _1))", "(Py.EIO.hstack {0} {1})", ND, False, [ND, ND]),
         ],
     },
